@@ -23,11 +23,20 @@ RULE = (
     "scores, re-appended projects), start = as_multiprofile of a list profile | MultiProfile(init) | empty, then random "
     "append/extend/extend(profile) steps; every history runs under >=3 PYTHONHASHSEED values; non-trivial = some content "
     "occurs >=2 times with different construction steps; distinct by history hash; a second stream draws the project names from a "
-    "pool of look-alikes (differing only in case / blanks / punctuation, prefixes of each other, numeric-looking, non-ASCII, empty)"
+    "pool of look-alikes (differing only in case / blanks / punctuation, prefixes of each other, numeric-looking, non-ASCII, empty); "
+    "a third stream ('feeds') has up to 14 voters, delivers the ballots to extend / update / the constructors (init=, profile=) as list, "
+    "tuple, one-shot iterator, generator of freshly built temporary ballots or (extend) generator refilling and re-yielding one ballot "
+    "object, uses every container that may legally hold the ballots (typed multiprofile with default / FrozenBallot / abstract "
+    "ballot_type or validation off, generic MultiProfile) and, for scores, mixes CardinalBallot and CumulativeBallot voters with equal "
+    "scores; in every history each frozen ballot is also rebuilt in every other frozen class of the same builtin base and "
+    "a == b => hash(a) == hash(b) is checked over all pairs"
 )
 ASSUMPTIONS = [
     "ballot content = approved set / final score mapping / ranking (first occurrences); projects are compared by name",
     "the model is given the net insertion sequence of a ballot (discarded / deleted projects removed)",
+    "the multiset of a feed is the sequence of ballots as delivered (a generator may refill and re-yield one object: extend is documented to freeze what it receives)",
+    "a CardinalBallot and a CumulativeBallot with the same scores are equal ballots iff the library's own == on them says so (it does: dict equality)",
+    "the feeds stream is compared with the same Lean model (update = extend; every delivery mode = the list of ballots; mixed classes = cardinal)",
 ]
 TRUSTED = ["CPython dict insertion order (entries are also compared as a multiset)", "subprocess workers started with PYTHONHASHSEED set in the environment"]
 
@@ -139,7 +148,7 @@ def _close_sample(r, m):
     return _shuffled(r, out[:m])
 
 
-def gen_history(rng: random.Random, pool="plain"):
+def gen_history(rng: random.Random, pool="plain", feeds=False):
     sub = rng.getrandbits(48)
     r = random.Random(sub)
     btype = r.choice(["app", "card", "cum", "ord"]) if pool == "plain" else r.choice(["app", "app", "app", "card", "cum", "ord"])
@@ -189,7 +198,82 @@ def gen_history(rng: random.Random, pool="plain"):
     h = {"btype": btype, "names": names, "voters": voters, "start": {"kind": kind, "n": n0}, "ops": ops, "seed": sub}
     if pool != "plain":
         h["pool"] = pool
+    if feeds:
+        decorate_feeds(h, r)
     return h
+
+
+# how a sequence of ballots is DELIVERED to extend / update / a constructor: as a list (every ballot alive and unchanged during the
+# call), a tuple, a one-shot iterator, a generator of freshly built temporaries (nobody but the consumer holds the ballot; it is
+# gone when the next one is built) or - extend only, which is documented to freeze what it is given - a generator that refills and
+# re-yields ONE ballot object.  The multiset is the sequence of ballots as they were delivered.
+FEEDS_MUTABLE = ["list", "gen", "gen", "gen", "reuse", "reuse", "iter", "tuple"]
+FEEDS_FROZEN = ["list", "gen", "gen", "iter", "tuple"]
+# containers that may legally hold the frozen ballots of a history (typed = the multiprofile class of the ballot type)
+CONTAINERS = [{"kind": "typed"}] * 4 + [{"kind": "typed", "ballot_type": "FrozenBallot"}, {"kind": "typed", "ballot_type": "abstract_kind"},
+                                         {"kind": "typed", "ballot_type": "AbstractBallot"}, {"kind": "typed", "validation": False}, {"kind": "generic"}, {"kind": "generic"}]
+CONTAINERS_MIXED = [c for c in CONTAINERS if c != {"kind": "typed"}]
+
+
+def _proto_of(btype, steps):
+    c = content_of_steps(btype, steps)
+    return {n: F(s) for n, s in c} if btype in ("card", "cum") else list(c)
+
+
+def decorate_feeds(h, r):
+    """second family of histories (drawn after the plain history is complete, from the same per-history generator): more voters,
+    longer feeds, delivery modes, containers of other legal configurations, and - cardinal scores - voters whose equal ballots are
+    partly CardinalBallot and partly CumulativeBallot objects (a CumulativeBallot is a CardinalBallot: one CardinalProfile, a generic
+    MultiProfile, a CardinalMultiProfile validating against a common base class hold both)"""
+    bt = h["btype"]
+    voters = h["voters"]
+    for _ in range(r.randint(0, 6)):
+        src = r.choice(voters)
+        i = len(voters)
+        voters.append({"steps": gen_voter_steps(r, bt, _proto_of(bt, src["steps"]), h["names"]), "name": r.choice(["", "v%d" % i, "voter"]),
+                       "meta": r.choice([{}, {"district": "d%d" % (i % 3)}]), "fmode": r.choice(["frozen"] * 6 + ["direct_tuple", "direct_list", "from_frozen", "concat"]), "fseed": r.getrandbits(16)})
+    r.shuffle(voters)
+    n = len(voters)
+    mixed = bt in ("card", "cum") and r.random() < 0.6
+    if mixed:
+        h["btype"] = bt = "card"
+        h["mixed"] = True
+        for v in voters:
+            v["cls"] = r.choice(["card", "cum"])
+    h["container"] = dict(r.choice(CONTAINERS_MIXED if mixed else CONTAINERS))
+    typed = h["container"]["kind"] == "typed"
+    st = h["start"]
+    if r.random() < 0.5:
+        st["n"] = min(st["n"], r.randint(0, 2))
+    n0 = st["n"]
+    if st["kind"] == "conv" and mixed:
+        # CardinalProfile.as_multiprofile validates against FrozenCardinalBallot and refuses the frozen cumulative ballots
+        st["kind"] = "ctor_profile" if typed else "ctor"
+    elif st["kind"] == "ctor" and typed and r.random() < 0.35:
+        st["kind"] = "ctor_profile"
+    if st["kind"] == "ctor_profile":
+        st["k"] = r.randint(0, n0)
+    if st["kind"] != "empty":
+        st["feed"] = r.choice(["list", "gen", "gen", "iter", "tuple"])
+    ops = []
+    i = n0
+    while i < n:
+        x = r.random()
+        if x < 0.15:
+            ops.append({"op": "append", "voters": [i]})
+            i += 1
+            continue
+        j = max(r.randint(i, n), r.randint(i, n))
+        op = r.choice(["extend", "extend", "extend", "extend_frozen", "update", "extend_profile"])
+        o = {"op": op, "voters": list(range(i, j))}
+        if op == "extend":
+            o["feed"] = r.choice(FEEDS_MUTABLE)
+        elif op != "extend_profile":
+            o["feed"] = r.choice(FEEDS_FROZEN)
+        ops.append(o)
+        i = j
+    h["ops"] = ops
+    h["variant"] = "feeds"
 
 
 # ----------------------------------------------------------------------------------------------
@@ -297,18 +381,42 @@ def _content(btype, b):
     return [p.name for p in b]
 
 
+def _frozen_classes(e):
+    """every concrete frozen ballot class the library exports, grouped by its builtin base (dict-based classes can compare equal
+    to each other, tuple-based ones too)"""
+    out = {}
+    for k in sorted(vars(e)):
+        c = getattr(e, k)
+        if isinstance(c, type) and issubclass(c, e.FrozenBallot) and c is not e.FrozenBallot and not getattr(c, "__abstractmethods__", None):
+            base = dict if issubclass(c, dict) else tuple if issubclass(c, tuple) else None
+            if base is not None:
+                out.setdefault(base, []).append(c)
+    return out
+
+
 def worker_run(h):
     import pabutools.election as e
 
     bt = h["btype"]
-    BAL = {"app": e.ApprovalBallot, "card": e.CardinalBallot, "cum": e.CumulativeBallot, "ord": e.OrdinalBallot}[bt]
+    BALS = {"app": e.ApprovalBallot, "card": e.CardinalBallot, "cum": e.CumulativeBallot, "ord": e.OrdinalBallot}
+    FROZS = {"app": e.FrozenApprovalBallot, "card": e.FrozenCardinalBallot, "cum": e.FrozenCumulativeBallot, "ord": e.FrozenOrdinalBallot}
     PROF = {"app": e.ApprovalProfile, "card": e.CardinalProfile, "cum": e.CumulativeProfile, "ord": e.OrdinalProfile}[bt]
     MULTI = {"app": e.ApprovalMultiProfile, "card": e.CardinalMultiProfile, "cum": e.CumulativeMultiProfile, "ord": e.OrdinalMultiProfile}[bt]
     projs = {n: e.Project(n, 1) for n in h["names"]}
     inst = e.Instance(projs.values(), budget_limit=3)
-    ballots = []
-    for v in h["voters"]:
-        b = BAL(name=v["name"], meta=dict(v["meta"]))
+    voters = h["voters"]
+
+    def cls_of(v):
+        return v.get("cls", bt)  # mixed histories: cardinal and cumulative ballots side by side
+
+    def build(v, into=None):
+        """the ballot of voter `v`, built step by step - a new object, or `into` emptied and refilled"""
+        if into is None:
+            b = BALS[cls_of(v)](name=v["name"], meta=dict(v["meta"]))
+        else:
+            b = into
+            b.clear()
+            b.name, b.meta = v["name"], dict(v["meta"])
         for st in v["steps"]:
             if st[0] == "freeze":
                 b.frozen()
@@ -328,12 +436,13 @@ def worker_run(h):
                 del b[projs[st[1]]]
             else:
                 b.append(projs[st[1]])
-        ballots.append(b)
-    FROZ = {"app": e.FrozenApprovalBallot, "card": e.FrozenCardinalBallot, "cum": e.FrozenCumulativeBallot, "ord": e.FrozenOrdinalBallot}[bt]
-    fmodes = {id(b): (v.get("fmode", "frozen"), v.get("fseed", 0)) for b, v in zip(ballots, h["voters"])}
+        return b
 
-    def freeze(b):
-        mode, fs = fmodes[id(b)]
+    ballots = [build(v) for v in voters]
+
+    def freeze(b, v):
+        mode, fs = v.get("fmode", "frozen"), v.get("fseed", 0)
+        FROZ = FROZS[cls_of(v)]
         if mode == "frozen":
             return b.frozen()
         rr = random.Random(fs)
@@ -353,25 +462,87 @@ def worker_run(h):
             return FROZ(tuple(items[:k]), name=b.name, meta=b.meta) + FROZ(tuple(items[k:]), name=b.name, meta=b.meta)
         return FROZ(tuple(items) if mode == "direct_tuple" else list(items), name=b.name, meta=b.meta)
 
+    def fresh(idx, frozen):
+        # temporaries: built when asked for, handed over, not kept
+        for i in idx:
+            if frozen:
+                yield freeze(build(voters[i]), voters[i])
+            else:
+                yield build(voters[i])
+
+    def refilled(idx):
+        # one ballot object (per ballot class) emptied, refilled and handed over again for every voter
+        slot = {}
+        for i in idx:
+            k = cls_of(voters[i])
+            slot[k] = build(voters[i], slot.get(k))
+            yield slot[k]
+
+    def feed(idx, mode, frozen):
+        if mode == "gen":
+            return fresh(idx, frozen)
+        if mode == "reuse" and not frozen:
+            return refilled(idx)
+        live = [freeze(ballots[i], voters[i]) if frozen else ballots[i] for i in idx]
+        return {"list": list, "tuple": tuple, "iter": iter}.get(mode, list)(live)
+
+    cont = h.get("container", {"kind": "typed"})
+
+    def new_multi(init=(), profile=None):
+        kw = {"instance": inst}
+        if cont.get("ballot_type"):
+            abstract = {"app": "AbstractApprovalBallot", "card": "AbstractCardinalBallot", "cum": "AbstractCumulativeBallot", "ord": "AbstractOrdinalBallot"}[bt]
+            kw["ballot_type"] = {"FrozenBallot": e.FrozenBallot, "AbstractBallot": e.AbstractBallot, "abstract_kind": getattr(e, abstract)}[cont["ballot_type"]]
+        if cont.get("validation") is False:
+            kw["ballot_validation"] = False
+        if profile is not None:
+            kw["profile"] = profile
+        return (e.MultiProfile if cont["kind"] == "generic" else MULTI)(init, **kw)
+
     n0 = h["start"]["n"]
     kind = h["start"]["kind"]
+    sfeed = h["start"].get("feed", "list")
     if kind == "conv":
-        mp = PROF(ballots[:n0], instance=inst).as_multiprofile()
+        mp = PROF(feed(range(n0), sfeed, False), instance=inst).as_multiprofile()
     elif kind == "ctor":
-        mp = MULTI([freeze(b) for b in ballots[:n0]], instance=inst)
+        mp = new_multi(feed(range(n0), sfeed, True))
+    elif kind == "ctor_profile":
+        k0 = h["start"]["k"]
+        mp = new_multi(feed(range(k0), sfeed, True), profile=PROF(ballots[k0:n0], instance=inst))
     else:
-        mp = MULTI(instance=inst)
+        mp = new_multi()
     for op in h["ops"]:
-        bs = [ballots[i] for i in op["voters"]]
+        idx = op["voters"]
+        mode = op.get("feed", "list")
         if op["op"] == "append":
-            mp.append(freeze(bs[0]))
+            mp.append(freeze(ballots[idx[0]], voters[idx[0]]))
         elif op["op"] == "extend":
-            mp.extend(bs)
+            mp.extend(feed(idx, mode, False))
         elif op["op"] == "extend_frozen":
-            mp.extend([freeze(b) for b in bs])
+            mp.extend(feed(idx, mode, True))
+        elif op["op"] == "update":
+            mp.update(feed(idx, mode, True))
         else:
-            mp.extend(PROF(bs, instance=inst))
-    frozen = [freeze(b) for b in ballots]
+            mp.extend(PROF([ballots[i] for i in idx], instance=inst))
+    frozen = [freeze(b, v) for b, v in zip(ballots, voters)]
+    # the law a == b => hash(a) == hash(b) over every pair of frozen ballot classes that can compare equal: besides the frozen
+    # ballots of the voters, the same content held by each of the other frozen classes with the same builtin base
+    twins = []
+    fclasses = _frozen_classes(e)
+    for f in frozen:
+        base = dict if isinstance(f, dict) else tuple
+        for K in fclasses.get(base, []):
+            if K is not type(f):
+                try:
+                    twins.append(K(base(f), name=f.name, meta=f.meta))
+                except Exception:  # noqa: BLE001 - that class does not take this content (a ranking with a repeated project, ...)
+                    pass
+    pool = frozen + twins
+    xhash = []
+    for i, x in enumerate(pool):
+        for y in pool[i + 1:]:
+            if type(x) is not type(y) and x == y and hash(x) != hash(y):
+                xhash.append([type(x).__name__, type(y).__name__, _content(bt, x)])
     obs = {
         "type": type(mp).__name__,
         "len": len(mp),
@@ -382,6 +553,8 @@ def worker_run(h):
         "in": [f in mp for f in frozen],
         "hash": [hash(f) for f in frozen],
         "eq": ["".join("1" if f == g else "0" for g in frozen) for f in frozen],
+        "beq": ["".join("1" if f == g else "0" for g in ballots) for f in ballots] if h.get("mixed") else None,
+        "xhash": xhash[:3],
         "fcontent": [_content(bt, f) for f in frozen],
         "bcontent": [_content(bt, b) for b in ballots],
         "fname": [f.name for f in frozen],
@@ -446,7 +619,7 @@ def run_workers(histories, seeds):
 
 
 def _call_of(h):
-    calls = {"conv": "as_multiprofile", "ctor": "MultiProfile.__init__", "empty": "MultiProfile.__init__"}
+    calls = {"conv": "as_multiprofile", "ctor": "MultiProfile.__init__", "ctor_profile": "MultiProfile.__init__", "empty": "MultiProfile.__init__"}
     return calls[h["start"]["kind"]]
 
 
@@ -457,6 +630,14 @@ def predicate(h, obs, seed):
     keys = [json.dumps(c) for c in contents]
     n = len(keys)
     out = []
+    if h.get("mixed") and "ok" in obs and obs["ok"].get("beq"):
+        # voters "who cast an equal ballot": a cardinal and a cumulative ballot with the same scores are equal ballots exactly when the
+        # library's own == on the (mutable) ballots says so (a CumulativeBallot is a CardinalBallot and both compare as dicts); were
+        # they declared unequal, the two classes would be counted apart
+        beq = obs["ok"]["beq"]
+        cls = [x.get("cls") for x in h["voters"]]
+        if any(keys[i] == keys[j] and cls[i] != cls[j] and beq[i][j] != "1" for i in range(n) for j in range(n)):
+            keys = [json.dumps([c, k]) for c, k in zip(contents, cls)]
 
     def v(check, what, impl=None, expected=None, call=None):
         out.append({"what": what, "case": h, "cfg": {"hashseed": seed}, "impl": impl, "expected": expected, "sig": {"call": call or _call_of(h), "btype": bt, "check": check}})
@@ -488,7 +669,8 @@ def predicate(h, obs, seed):
     got = Counter()
     for c, m in o["entries"]:
         got[json.dumps(c)] += m
-    if got != cnt or len(o["entries"]) != len(cnt):
+    cnt_content = Counter(json.dumps(c) for c in contents)
+    if got != cnt_content or len(o["entries"]) != len(cnt):
         v("entries", "entries are not the multiset of contents", impl=o["entries"], expected=sorted(cnt.items()))
     for i in range(n):
         for j in range(n):
@@ -501,6 +683,9 @@ def predicate(h, obs, seed):
                 break
         else:
             continue
+        break
+    for tx, ty, c in o.get("xhash") or []:
+        v("frozen_hash_across_classes", f"a {tx} and a {ty} holding {c} are equal but their hashes differ", impl=[tx, ty, c], call="frozen.__hash__")
         break
     if not o["refreeze_eq"]:
         v("refreeze", "freezing the same ballot twice gives unequal ballots / hashes", call="frozen")
@@ -544,6 +729,23 @@ def run_batch(ctx, histories, seeds, compare=True):
         ctx.count("voters", str(len(h["voters"])))
         for op in h["ops"]:
             ctx.count("ops", op["op"])
+        if h.get("variant") == "feeds":
+            ctx.count("stream", "feeds")
+            c = h["container"]
+            ctx.count("container", c["kind"] + (":ballot_type=" + c["ballot_type"] if c.get("ballot_type") else "") + (":validation off" if c.get("validation") is False else ""))
+            if h["start"]["kind"] != "empty":
+                ctx.count("feed", "%s <- %s" % (_call_of(h), h["start"].get("feed", "list")))
+            for op in h["ops"]:
+                if "feed" in op:
+                    ctx.count("feed", "%s <- %s" % (op["op"], op["feed"]))
+                    if op["feed"] in ("gen", "reuse") and len(op["voters"]) >= 3:
+                        ctx.count("feed_long", "%s of >=3 ballots" % op["feed"])
+            if h.get("mixed"):
+                cs = [content_of_steps(h["btype"], x["steps"]) for x in h["voters"]]
+                both = any(cs[i] == cs[j] and h["voters"][i]["cls"] != h["voters"][j]["cls"] for i in range(len(cs)) for j in range(i))
+                ctx.count("mixed_classes", "equal scores cast as CardinalBallot and as CumulativeBallot" if both else "cardinal and cumulative ballots, no equal pair across classes")
+        else:
+            ctx.count("stream", "plain")
         if nontrivial(h):
             ctx.nontrivial.add(hkey(h))
             ctx.count("nontrivial", "yes")
@@ -595,6 +797,9 @@ def run(ctx):
     histories = [gen_history(ctx.rng) for _ in range(n)]
     # same histories over the pool of look-alike names (drawn after the plain ones: their stream is unchanged)
     histories += [gen_history(ctx.rng, pool="close") for _ in range(ctx.scale(600, 3000))]
+    # delivery modes (generators of temporaries, one refilled ballot object, one-shot iterators) into extend / update / constructors,
+    # other legal container configurations, cardinal and cumulative ballots with equal scores side by side (drawn last)
+    histories += [gen_history(ctx.rng, pool="close" if i % 5 == 4 else "plain", feeds=True) for i in range(ctx.scale(1200, 6000))]
     run_batch(ctx, histories, seeds)
     dedupe(ctx)
 
@@ -602,7 +807,7 @@ def run(ctx):
 def search(ctx, disagreements):
     ctx.rule = RULE
     seeds = pick_seeds(ctx.rng, 3)
-    histories = [gen_history(ctx.rng) for _ in range(3000)] + [gen_history(ctx.rng, pool="close") for _ in range(1000)]
+    histories = [gen_history(ctx.rng) for _ in range(3000)] + [gen_history(ctx.rng, pool="close") for _ in range(1000)] + [gen_history(ctx.rng, feeds=True) for _ in range(3000)]
     run_batch(ctx, histories, seeds, compare=False)
     dedupe(ctx)
 
